@@ -3,6 +3,13 @@ import json, os
 ROOT = os.path.dirname(os.path.dirname(os.path.abspath(__file__)))
 
 CHECKS = {
+    "C03": dict(
+        category="exploration",
+        text="Reference-model runtime monitor for the classic compiler: a 1..40-parameter sweep and random sigil-free programs are compiled by compile_clvm_text, run by clvmr and compared with the reference interpreter; the cl21 build of the same text is a second oracle on the shared subset.",
+        design_ref="DESIGN.md §4 C03",
+        note="trusts clvmr and the reference interpreter; one-directional",
+        technique="runtime monitoring against an executable reference model + differential (classic vs cl21)",
+    ),
     "C02": dict(
         category="exploration",
         text="Metamorphic + reference-model runtime monitor: each generated program is built under 8 option sets (optimize / frontend_opt / post-optimiser on and off, the library path, CLI -O) per dialect; every build is run by clvmr on generated arguments and must return the reference value whenever the reference returns one, so any two builds agree and no switch loses a value. Whole (dialect, switch) combinations that are listed known findings are attributed only when the all-switches-off build of the same program is clean.",
